@@ -34,3 +34,22 @@ func vStub_bcrypt_CompareHashAndPassword(hashedPassword, password []byte) error 
 	}
 	return vErr{}
 }
+
+// refTransaction: flags(1) isReply(1) type(2) id(4) error(4) total(4) data(4) count(2) fields
+func refTransaction(t *Transaction, fields [][]byte) []byte {
+	total := 2
+	for _, f := range fields {
+		total += len(f)
+	}
+	out := []byte{t.Flags, t.IsReply, t.Type[0], t.Type[1]}
+	out = append(out, t.ID[:]...)
+	out = append(out, t.ErrorCode[:]...)
+	out = append(out, refU32(total)...)
+	out = append(out, refU32(total)...)
+	out = append(out, refU16(len(fields))...)
+	for _, f := range fields {
+		out = append(out, f...)
+	}
+	return out
+}
+
